@@ -572,6 +572,15 @@ def ufunc_result_dtype(name, args, kwargs):
     for d_ in strong[1:]:
         acc = promote_dtype(acc, d_)
     nm = acc.dotted[6:] if isinstance(acc, ExtV) and acc.dotted.startswith("numpy.") else None
+    # weak Python scalars do not widen the precision but do decide the kind: real array (op) 1j is complex, int array (op) 0.5 is float
+    weak = [a for a in args if isinstance(a, Num) and not (a.dtype is not None and (a.shape or a.kind not in ("number",) or a.tag == "data"))]
+    if nm is not None and any(a.expr.has(sp.I) or a.expr.is_real is False for a in weak):
+        if nm in ("float32", "float16"):
+            acc, nm = ExtV("numpy.complex64"), "complex64"
+        elif not nm.startswith("complex"):
+            acc, nm = ExtV("numpy.complex128"), "complex128"
+    elif nm is not None and nm.startswith(("int", "uint", "bool")) and any(a.isfloat or (a.expr.is_number and a.expr.is_integer is False) for a in weak):
+        acc, nm = ExtV("numpy.float64"), "float64"
     if name in ("absolute", "fabs") and nm in ("complex64", "complex128"):
         return ExtV("numpy.float32" if nm == "complex64" else "numpy.float64")
     if name in ("divide", "true_divide") and nm is not None and nm.startswith(("int", "uint", "bool")):
@@ -3555,6 +3564,16 @@ def call_ext(ev, fn: ExtV, args, kwargs, fr, node):
         for k in range(int(nout)):
             given = outs.items[k] if isinstance(outs, TupleV) and k < len(outs.items) else NONE
             if not isinstance(given, NoneV):
+                if isinstance(given, Num) and given.backend == "dask":
+                    # Dask does not write into an out= array: it re-points the array object at the result (graph, chunks, meta --
+                    # hence dtype); its multi-output functions (modf, frexp, divmod) accept no out= at all
+                    if int(nout) > 1:
+                        from .symeval import Raised
+                        raise Raised("TypeError", node, f"{name}() got an unexpected keyword argument 'out'")
+                    rd = ufunc_result_dtype(name, args, {k_: v_ for k_, v_ in kwargs.items() if k_ != "out"})
+                    if rd is not None:
+                        given.dtype = rd
+                    ev.trace.append(("dask-out-rebound", name, given))
                 res.append(given)       # numpy returns the given out array itself
             else:
                 exprs = [a.expr if isinstance(a, Num) else sp.Symbol("arg_" + type(a).__name__) for a in args]
